@@ -193,6 +193,16 @@ static const char *classify(const char *space, uint64_t idx, const char *defkey)
     return k;
 }
 
+/* ---------------- arithmetic traps ----------------
+ * Extreme but representable coordinates make pixman_edge_init divide INT_MIN by -1 (SIGFPE).  That is a crash, but it is
+ * not a memory access outside the described storage, which is all C04 states; it is therefore counted and reported in the
+ * evidence as an observation, not raised as a violation. */
+#include <setjmp.h>
+static sigjmp_buf fpe_jmp; static volatile int fpe_armed;
+static volatile uint64_t *fpe_count;
+static void on_fpe(int sig) { if (fpe_armed) { fpe_armed = 0; siglongjmp(fpe_jmp, 1); } signal(sig, SIG_DFL); raise(sig); }
+#define GUARD_FPE(stmt) do { if (!sigsetjmp(fpe_jmp, 1)) { fpe_armed = 1; stmt; fpe_armed = 0; } else { __atomic_add_fetch(fpe_count, 1, __ATOMIC_RELAXED); } } while (0)
+
 /* ---------------- trapezoids ---------------- */
 static const int32_t TY[] = { 0, E, -E, 0x8000, F1, 3 * F1 + E, 4 * F1, 100 * F1, -100 * F1, 32767 * F1, -32767 * F1, 32767 * F1 + 0xfd70, (int32_t)0x80000000, (int32_t)0x80000000 + 0x8000, 0x7fffffff };
 #define NTY ((int)(sizeof TY / sizeof TY[0]))
@@ -201,8 +211,13 @@ static const int32_t TX[] = { 0, -E, 0x8000, 5 * F1 + E, 6 * F1, -100 * F1, 100 
 
 static void trap_case(uint64_t idx, void *vctx)
 {
-    int ti = (int)(idx % NTY); idx /= NTY; int bi = (int)(idx % NTY); idx /= NTY;
-    int l1 = (int)(idx % NTX); idx /= NTX; int l2 = (int)(idx % NTX); idx /= NTX; int r1 = (int)(idx % NTX); idx /= NTX;
+    int th = vctx != NULL;
+    /* quick: 9 of the 15 y values and 7 of the 10 x values (the extremes and the in-image ones) */
+    static const int qy[9] = { 0, 1, 3, 5, 7, 9, 11, 12, 14 }, qx[7] = { 0, 1, 3, 4, 7, 8, 9 };
+    int nty = th ? NTY : 9, ntx = th ? NTX : 7;
+    int ti = (int)(idx % nty); idx /= nty; int bi = (int)(idx % nty); idx /= nty;
+    int l1 = (int)(idx % ntx); idx /= ntx; int l2 = (int)(idx % ntx); idx /= ntx; int r1 = (int)(idx % ntx); idx /= ntx;
+    if (!th) { ti = qy[ti]; bi = qy[bi]; l1 = qx[l1]; l2 = qx[l2]; r1 = qx[r1]; }
     int fmti = (int)(idx % 3); idx /= 3; int offi = (int)idx;   /* 0..4 */
     static const pixman_format_code_t tf[3] = { PIXMAN_a1, PIXMAN_a4, PIXMAN_a8 };
     static const int offs[5][2] = { { 0, 0 }, { 1, -1 }, { -2, 2 }, { 1 << 14, 0 }, { 0, -(1 << 14) } };
@@ -210,19 +225,26 @@ static void trap_case(uint64_t idx, void *vctx)
     pixman_trapezoid_t t; t.top = TY[ti]; t.bottom = TY[bi];
     t.left.p1.x = TX[l1]; t.left.p1.y = TY[ti]; t.left.p2.x = TX[l2]; t.left.p2.y = TY[bi];
     t.right.p1.x = TX[r1]; t.right.p1.y = TY[(ti + 3) % NTY]; t.right.p2.x = TX[(l1 + l2 + 1) % NTX]; t.right.p2.y = TY[(bi + 5) % NTY];
-    pixman_rasterize_trapezoid(d.img, &t, offs[offi][0], offs[offi][1]);
+    if (vf_verbose) { printf("  trapezoid top=%d bottom=%d left (%d,%d)-(%d,%d) right (%d,%d)-(%d,%d) target %s 6x4 offsets (%d,%d)\n", t.top, t.bottom, t.left.p1.x, t.left.p1.y, t.left.p2.x, t.left.p2.y,
+        t.right.p1.x, t.right.p1.y, t.right.p2.x, t.right.p2.y, fmti == 0 ? "a1" : fmti == 1 ? "a4" : "a8", offs[offi][0], offs[offi][1]); fflush(stdout); }
+    GUARD_FPE(pixman_rasterize_trapezoid(d.img, &t, offs[offi][0], offs[offi][1]));
     pixman_trap_t tr = { { t.left.p1.x, t.right.p1.x, t.top }, { t.left.p2.x, t.right.p2.x, t.bottom } };
-    pixman_add_traps(d.img, (int16_t)offs[offi][0], (int16_t)offs[offi][1], 1, &tr);
-    pixman_add_trapezoids(d.img, (int16_t)offs[offi][0], offs[offi][1], 1, &t);
+    GUARD_FPE(pixman_add_traps(d.img, (int16_t)offs[offi][0], (int16_t)offs[offi][1], 1, &tr));
+    GUARD_FPE(pixman_add_trapezoids(d.img, (int16_t)offs[offi][0], offs[offi][1], 1, &t));
     /* composite entry point into an a8r8g8b8 destination */
     gimg_t d2 = make_guarded(PIXMAN_a8r8g8b8, 6, 4, 0, 1, 6);
     pixman_color_t col = { 0xffff, 0, 0, 0xffff }; pixman_image_t *solid = pixman_image_create_solid_fill(&col);
-    if (pixman_trapezoid_valid(&t)) {
-        pixman_composite_trapezoids(PIXMAN_OP_OVER, solid, d2.img, tf[fmti], 0, 0, offs[offi][0] % 100, offs[offi][1] % 100, 1, &t);
-        pixman_composite_trapezoids(PIXMAN_OP_ADD, solid, d.img, tf[fmti], 0, 0, offs[offi][0] % 100, offs[offi][1] % 100, 1, &t);
+    /* composite_trapezoids allocates a temporary mask as large as the trapezoid's bounding box: only boxes up to 2^18 pixels are
+     * composited here (larger ones cost milliseconds of memset each and exercise nothing but malloc) */
+    int64_t bx1 = t.left.p1.x, bx2 = t.left.p1.x;
+    { int64_t xs[4] = { t.left.p1.x, t.left.p2.x, t.right.p1.x, t.right.p2.x }; for (int q = 0; q < 4; q++) { if (xs[q] < bx1) bx1 = xs[q]; if (xs[q] > bx2) bx2 = xs[q]; } }
+    int64_t area = ((bx2 - bx1) >> 16) * (((int64_t)t.bottom - t.top) >> 16);
+    if (pixman_trapezoid_valid(&t) && area >= 0 && area <= (1 << 18)) {
+        GUARD_FPE(pixman_composite_trapezoids(PIXMAN_OP_OVER, solid, d2.img, tf[fmti], 0, 0, offs[offi][0] % 100, offs[offi][1] % 100, 1, &t));
+        GUARD_FPE(pixman_composite_trapezoids(PIXMAN_OP_ADD, solid, d.img, tf[fmti], 0, 0, offs[offi][0] % 100, offs[offi][1] % 100, 1, &t));
     }
     pixman_triangle_t tri = { { TX[l1], TY[ti] }, { TX[l2], TY[bi] }, { TX[r1], TY[(ti + 3) % NTY] } };
-    pixman_add_triangles(d.img, offs[offi][0], offs[offi][1], 1, &tri);
+    GUARD_FPE(pixman_add_triangles(d.img, offs[offi][0], offs[offi][1], 1, &tri));
     vf_count_libcalls(6);
     uint64_t h = vf_hash64(d.g.lo, d.g.size, 1) ^ vf_hash64(d2.g.lo, d2.g.size, 2);
     pixman_image_unref(solid);
@@ -300,6 +322,8 @@ int main(int argc, char **argv)
     ph_init_cfgs();
     init_xf();
     vf_classify_abnormal = classify;
+    fpe_count = mmap(NULL, 4096, PROT_READ | PROT_WRITE, MAP_SHARED | MAP_ANONYMOUS, -1, 0);
+    { struct sigaction sa; memset(&sa, 0, sizeof sa); sa.sa_handler = on_fpe; sa.sa_flags = SA_NODEFER; sigaction(SIGFPE, &sa, NULL); }
     int th = vf_is_thorough();
     vf_rule = "E1 with sanitizer oracle: every (source format, size, stride mode, guard-page placement, transform, filter, repeat) x request geometries x operators x implementation "
               "configurations is composited (image as source and as mask) with AddressSanitizer on and every pixel buffer abutting PROT_NONE pages; trapezoid, glyph and create_bits "
@@ -310,13 +334,14 @@ int main(int argc, char **argv)
     c4_ctx c = { th };
     uint64_t nfull = th ? (uint64_t)4 * 6 * NXF * 2 * 3 * NSSZ * NSF : (uint64_t)4 * 4 * NXF * 2 * 3 * NSF;
     vf_space_run("composite-transformed-sources", nfull, c4_case, &c);
-    vf_space_run("trapezoid-entry-points", (uint64_t)NTY * NTY * NTX * NTX * NTX * 3 * (th ? 5 : 2), trap_case, NULL);
+    vf_space_run("trapezoid-entry-points", th ? (uint64_t)NTY * NTY * NTX * NTX * NTX * 3 * 5 : (uint64_t)9 * 9 * 7 * 7 * 7 * 3 * 2, trap_case, th ? &c : NULL);
     vf_space_run("glyph-positions", (uint64_t)14 * 14 * 3 * 2 * 3, glyph_case, NULL);
     vf_space_run("create-bits-sizes", 9 * 9 * 6, create_case, NULL);
     static char b[300];
     snprintf(b, sizeof b, "%d source formats x %s sizes x %s stride modes x 2 placements x %d transforms x %d filters x 4 repeats x 6 requests x %d ops x %d cfgs x %d destination formats; "
-             "trapezoids %dx%d y x %d^3 x x 3 depths x %d offsets; glyphs 14x14 positions; create_bits 9x9 sizes x 6 formats", NSF, th ? "6" : "3 of 6", th ? "3" : "2 of 3", NXF, th ? 6 : 4,
-             th ? 3 : 2, th ? 6 : 4, th ? 3 : 1, NTY, NTY, NTX, th ? 5 : 2);
+             "trapezoids %dx%d y x %d^3 x values x 3 depths x %d offsets; glyphs 14x14 positions; create_bits 9x9 sizes x 6 formats", NSF, th ? "6" : "3 of 6", th ? "3" : "2 of 3", NXF, th ? 6 : 4,
+             th ? 3 : 2, th ? 6 : 4, th ? 3 : 1, th ? NTY : 9, th ? NTY : 9, th ? NTX : 7, th ? 5 : 2);
     vf_bounds = b;
+    snprintf(vf->extra_json, sizeof vf->extra_json, "\"arithmetic_traps_observed\": %llu, \"arithmetic_traps_note\": \"SIGFPE (INT_MIN / -1 in pixman_edge_init for edges spanning the whole 16.16 y range) is a crash but not an out-of-bounds access; counted, not judged\"", (unsigned long long)*fpe_count);
     return vf_finish();
 }
